@@ -25,7 +25,7 @@ class CSVSearchRecorder(SearchRecorder):
         self.csv_file = open(csv_path, "w", newline="")
         self.csv_writer = csv.writer(self.csv_file)
         if fields is not None:
-            self.fields = fields
+            self.fields = dict(fields)  # a copy: the caller's dict may configure several recorders
         else:
             self.fields = {
                 "Execution Time": lambda t, i, _: (monotonic_ns() - t.start_time) * 0.000000001,
